@@ -505,6 +505,11 @@ pub fn check_main(engine: &'static dyn Engine, args: CheckArgs) -> i32 {
     let mut known_hits = 0u64;
     let mut printed_known: BTreeSet<String> = BTreeSet::new();
     let mut violation_lines = vec![];
+    // Unknown violations grouped by class, simplest trace first; at most MAX_PER_CLASS of each
+    // class are written, replay-verified in a fresh process and printed (a broken tree can
+    // produce thousands of signatures of one class; each still counts in the evidence).
+    const MAX_PER_CLASS: usize = 3;
+    let mut by_class: BTreeMap<String, Vec<&Violation>> = BTreeMap::new();
     for (sig, v) in by_sig.iter() {
         if let Some(kf) = known
             .iter()
@@ -519,26 +524,56 @@ pub fn check_main(engine: &'static dyn Engine, args: CheckArgs) -> i32 {
             }
             continue;
         }
-        let path = write_replay(v, engine);
-        if v.class != "abort" && v.class != "hang" {
-            match replay_in_fresh_process(&path) {
-                Ok(sigs) if sigs.iter().any(|s| s == sig) => {}
-                Ok(sigs) => {
-                    harness_errors.push(format!(
-                        "replay of {path} did not reproduce signature {sig} (got {sigs:?})"
-                    ));
-                    continue;
-                }
-                Err(e) => {
-                    harness_errors.push(format!("could not replay {path}: {e}"));
-                    continue;
+        by_class.entry(v.class.clone()).or_default().push(v);
+    }
+    let mut unknown_signatures = 0u64;
+    for (class, vs) in by_class.iter_mut() {
+        unknown_signatures += vs.len() as u64;
+        vs.sort_by_key(|v| (serde_json::to_string(&v.trace).map(|t| t.len()).unwrap_or(0), v.k));
+        let mut shown = 0;
+        let mut failed_replays = vec![];
+        for v in vs.iter() {
+            if shown >= MAX_PER_CLASS {
+                break;
+            }
+            let sig = &v.signature;
+            let path = write_replay(v, engine);
+            if v.class != "abort" && v.class != "hang" {
+                match replay_in_fresh_process(&path) {
+                    Ok(sigs) if sigs.iter().any(|s| s == sig) => {}
+                    Ok(sigs) => {
+                        failed_replays.push(format!(
+                            "replay of {path} did not reproduce signature {sig} (got {sigs:?})"
+                        ));
+                        let _ = std::fs::remove_file(&path);
+                        if failed_replays.len() > 5 {
+                            break;
+                        }
+                        continue;
+                    }
+                    Err(e) => {
+                        failed_replays.push(format!("could not replay {path}: {e}"));
+                        continue;
+                    }
                 }
             }
+            shown += 1;
+            reported += 1;
+            println!("--- violation class={class} (signature seen {}x) ---", sig_counts[sig]);
+            println!("{}", short(&v.detail, 3000));
+            violation_lines.push(format!("VIOLATION property={} replay={}", v.property, path));
         }
-        reported += 1;
-        println!("--- violation ({}x) class={} ---", sig_counts[sig], v.class);
-        println!("{}", short(&v.detail, 4000));
-        violation_lines.push(format!("VIOLATION property={} replay={}", v.property, path));
+        if vs.len() > shown {
+            println!(
+                "... class {class}: {} distinct signature(s) in total, {} shown",
+                vs.len(),
+                shown
+            );
+        }
+        if shown == 0 {
+            // Nothing of this class replays: that is a harness defect, not a finding.
+            harness_errors.extend(failed_replays);
+        }
     }
     // Known findings that did not fire are still listed (the finding is a fact about the tree as
     // recorded; the check does not pretend it went away) — but only when the engine explored the
@@ -604,7 +639,7 @@ pub fn check_main(engine: &'static dyn Engine, args: CheckArgs) -> i32 {
         "coverage": Value::Object(coverage),
         "assumptions": parts.assumptions,
         "wall_s": wall_s,
-        "violations": reported,
+        "violations": unknown_signatures,
     });
     let _ = std::fs::create_dir_all(format!("{VERIF_DIR}/evidence"));
     let epath = format!("{VERIF_DIR}/evidence/{prop}.json");
